@@ -98,7 +98,18 @@ BLOCKS = """blocks:
             ip: duct.op
             mult: 1.0
             op: 16.8
+    dummy: &block_dummy
+        flags: dummy
+        coolant:
+            shape: Hexagon
+            material: Sodium
+            Tinput: 25.0
+            Thot: 450.0
+            ip: 0.0
+            mult: 1.0
+            op: 16.8
     plenum: &block_plenum
+        axial expansion target component: clad
         clad:
             shape: Circle
             material: HT9
@@ -147,6 +158,8 @@ def blueprint_text(spec):
     plate = bool(spec.get("plate", False))
     plenum = bool(spec.get("plenum", False))
     blocks = (["*block_grid_plate"] if plate else []) + ["*block_fuel"] * nfuel + (["*block_plenum"] if plenum else [])
+    if spec.get("dummy"):
+        blocks.append("*block_dummy")
     nb = len(blocks)
     heights = list(spec.get("heights") or [25.0] * nb)
     heights = (heights * nb)[:nb]
